@@ -35,6 +35,7 @@ GROUPS = [
     ("static after variable", lambda k: k.endswith("/static-after-var"), lambda k: k[:-17] + "/static-first"),
     ("static after variable font with info overrides", lambda k: k.endswith("/static-after-vfinfo"), lambda k: k[:-20] + "/static-first"),
     ("variable after static", lambda k: k.endswith("/vcff2-first"), lambda k: k[:-12] + "/vcff2-after"),
+    ("filter OBJECTS handed to an earlier compile of another font", lambda k: k.endswith("-after-other-font"), lambda k: k[:-17] + "-fresh-objects"),
     ("the caller's options object after the calls", lambda k: k.endswith("/ftconfig-after"), lambda k: k[:-15] + "/ftconfig-before"),
 ]
 
